@@ -145,7 +145,7 @@ def check_c01(schema, doc, variables, data, result, problems):
 
 # ------------------------------------------------------------------ C02 oracle
 def strip_loc(node):
-    return ast_to_dict(node, locations=False)
+    return norm_ast(node)
 
 
 def is_plain_typename(sel):
@@ -268,44 +268,6 @@ def check_c02(schema, authored_text, op_name, body, problems):
 
 
 # ------------------------------------------------------------------ driver
-def explore_responses(schema, client, is_async, method, kwargs, bound, max_runs, exec_kw=None):
-    """Run the generated method once per response of the choice tree.  Yields dicts."""
-    captured = {}
-    state = {}
-
-    def handler(request):
-        body = json.loads(request.content)
-        captured["body"] = body
-        captured["n"] = captured.get("n", 0) + 1
-        try:
-            res, doc = refexec.execute(schema, body["query"], body.get("variables") or {}, state["choose"],
-                                       operation_name=body.get("operationName"), **(exec_kw or {}))
-        except Exception as e:  # noqa
-            captured["handler_error"] = f"{type(e).__name__}: {e}"
-            return httpx.Response(200, json={"data": None, "errors": [{"message": "handler: " + str(e)}]})
-        captured["exec"] = res
-        captured["doc"] = doc
-        payload = {"data": res.data}
-        if res.errors:
-            payload["errors"] = [{"message": e.message} for e in res.errors]
-        return httpx.Response(200, json=payload)
-
-    def run(choose):
-        state["choose"] = choose
-        captured.clear()
-        try:
-            result = clients.call(is_async, method, **kwargs)
-            outcome = ("ok", result)
-        except BaseException as e:  # noqa
-            outcome = ("exc", e)
-        return dict(outcome=outcome, body=captured.get("body"), n=captured.get("n", 0), exec=captured.get("exec"),
-                    doc=captured.get("doc"), handler_error=captured.get("handler_error"))
-
-    ex = Explorer(run, bound=bound, max_runs=max_runs)
-    results = ex.run_all()
-    return results, ex
-
-
 def evaluate_op(case):
     """case: dict(schema, doc_text, op_name, uses_var, options, bound, max_runs, checks=[...])
     returns dict(status, gen_error?, runs, problems=[(clause, detail, ctx)], sent_query, ...)"""
@@ -345,6 +307,7 @@ def evaluate_op(case):
         mname = find_method(Client, case["op_name"])
         assignments = [{"v": True}, {"v": False}] if case.get("uses_var") else [{}]
         first = True
+        ann_seen = set()
         for kwargs in assignments:
             def mk():
                 c = clients.make_client(Client, is_async, None, **clients.tracer_kwargs(kind, case.get("tracer", "none")))
@@ -433,9 +396,17 @@ def evaluate_op(case):
                     problems.extend((c_, d_, ctx) for c_, d_ in p1)
                 if "c05" in checks:
                     from . import strict
-                    p5, n5 = strict.check_corruptions(schema, obs["doc"], data, type(val), case.get("c05_limit"))
+                    try:
+                        p5, n5, s5 = strict.check_corruptions(schema, obs["doc"], data, type(val), case.get("c05_limit"))
+                        for k_, v_ in s5.items():
+                            out[k_] = out.get(k_, 0) + v_
+                        pa, na = strict.check_annotations(schema, obs["doc"], body.get("variables") or {}, data, val, ann_seen)
+                    except Exception:  # noqa
+                        import traceback
+                        p5, n5, pa, na = [("harness_error", traceback.format_exc()[-800:], {})], 0, [], 0
                     out["corruptions"] = out.get("corruptions", 0) + n5
-                    problems.extend((c_, d_, dict(ctx, **x_)) for c_, d_, x_ in p5)
+                    out["annotations"] = out.get("annotations", 0) + na
+                    problems.extend((c_, d_, dict(ctx, **x_)) for c_, d_, x_ in p5 + pa)
             out["capped"] = out["capped"] or ex.capped
         if "c05" in checks and case.get("annotations", True):
             pass
@@ -444,8 +415,77 @@ def evaluate_op(case):
     kept, per = [], {}
     for c_, d_, ctx in problems:
         per[c_] = per.get(c_, 0) + 1
-        if per[c_] <= 3:
+        if per[c_] <= case.get("keep_per_clause", 3):
             kept.append((c_, d_, ctx))
     out["problem_counts"] = per
     out["problems"] = kept
+    return out
+
+
+# ------------------------------------------------------------------ C02 driver: capture the request of every operation
+def norm_ast(node):
+    """AST as dict without locations and without the block-string flag (representation only)."""
+    d = ast_to_dict(node, locations=False)
+
+    def rec(x):
+        if isinstance(x, dict):
+            x.pop("block", None)
+            for v in x.values():
+                rec(v)
+        elif isinstance(x, list):
+            for v in x:
+                rec(v)
+    rec(d)
+    return d
+
+
+def capture_requests(case):
+    """case: schema, doc_text, ops=[{name, kwargs}], options, files.  Generates one package, calls every
+    operation's method once, returns the captured bodies and C02 problems per operation."""
+    schema_text = case["schema"]
+    schema = get_schema(schema_text)
+    options = case.get("options") or {}
+    out = {"status": "ok", "ops": {}, "problems": []}
+    with genpkg.scratch() as d:
+        try:
+            pkg, pdir, _ = genpkg.generate(d, schema_text, case["doc_text"], options, files=case.get("files"))
+        except genpkg.GenError as e:
+            out.update(status="gen_error", gen_error=str(e), gen_error_type=e.exc_type)
+            return out
+        try:
+            mod, mods = genpkg.import_package(d, pkg)
+        except BaseException as e:  # noqa
+            out.update(status="import_error", gen_error=f"{type(e).__name__}: {e}", gen_error_type=type(e).__name__)
+            return out
+        kind = client_kind(options)
+        is_async = clients.BUNDLED[kind][2]
+        Client = getattr(mod, options.get("client_name", "Client"))
+        if "operations" in mods:
+            out["operations_constants"] = {k: v for k, v in vars(mods["operations"]).items() if k.isupper() and isinstance(v, str)}
+        for op in case["ops"]:
+            captured = {}
+
+            def handler(request):
+                captured["body"] = json.loads(request.content)
+                captured["n"] = captured.get("n", 0) + 1
+                return httpx.Response(200, json={"data": {}})
+
+            c = clients.make_client(Client, is_async, handler)
+            mname = find_method(Client, op["name"])
+            try:
+                clients.call(is_async, getattr(c, mname), **(op.get("kwargs") or {}))
+            except Exception as e:  # noqa  (validation of the dummy response is irrelevant here)
+                captured["exc"] = type(e).__name__
+            if captured.get("n") != 1:
+                out["problems"].append((op["name"], "request_count", f"{captured.get('n', 0)} requests; {captured.get('exc')}"))
+                continue
+            body = captured["body"]
+            out["ops"][op["name"]] = {"query": body.get("query"), "variables": body.get("variables")}
+            p2 = []
+            try:
+                check_c02(schema, case["doc_text"], op["name"], body, p2)
+            except Exception:  # noqa
+                import traceback
+                p2.append(("harness_error", traceback.format_exc()[-800:]))
+            out["problems"].extend((op["name"], c_, d_) for c_, d_ in p2)
     return out
